@@ -56,7 +56,23 @@ pub fn model_syms(t: i32, tx: i32) -> Syms {
 
 pub fn random_syms(r: &mut Rng, t: i32, tx: i32) -> Syms {
     let g = GenCfg::small();
-    Syms { a: gen_shape_with(r, t, &g, true), b: gen_shape_with(r, t, &GenCfg::medium(), true), x: gen_shape_with(r, tx, &g, true) }
+    let mut s = Syms { a: gen_shape_with(r, t, &g, true), b: gen_shape_with(r, t, &GenCfg::medium(), true), x: gen_shape_with(r, tx, &g, true) };
+    // measure profiles: every measure below the no-data threshold / exactly no-data / all real
+    let profile = r.below(4);
+    if profile < 3 && stores_m(t) {
+        for sh in [&mut s.a, &mut s.b] {
+            for part in sh.parts.iter_mut() {
+                for p in part.iter_mut() {
+                    p[3] = match profile {
+                        0 => -8 + (p[3].rem_euclid(3)),      // -8, -7, -6: all below NO_DATA
+                        1 => ND,
+                        _ => 1 + p[3].rem_euclid(7),
+                    };
+                }
+            }
+        }
+    }
+    s
 }
 
 fn write_res(r: Result<Result<(), Error>, String>) -> Value {
